@@ -24,8 +24,10 @@ type SimTicker struct {
 	Sent     int
 }
 
+//go:norace
 func NewSimClock(r *Run, epoch time.Time) *SimClock { return &SimClock{R: r, Epoch: epoch} }
 
+//go:norace
 func (c *SimClock) Now() time.Time {
 	Yield(KClock, unsafe.Pointer(c))
 	c.NowCalls++
@@ -33,8 +35,10 @@ func (c *SimClock) Now() time.Time {
 }
 
 // Peek reads the time without a yield point (harness use).
+//go:norace
 func (c *SimClock) Peek() time.Time { return c.Epoch.Add(time.Duration(c.now)) }
 
+//go:norace
 func (c *SimClock) Advance(d time.Duration) {
 	c.now += int64(d)
 	if c.R != nil && d > 0 {
@@ -42,6 +46,7 @@ func (c *SimClock) Advance(d time.Duration) {
 	}
 }
 
+//go:norace
 func (c *SimClock) NewTicker(d time.Duration) *time.Ticker {
 	ch := make(chan time.Time, 1)
 	tk := &SimTicker{C: ch, D: d, T: &time.Ticker{C: ch}}
@@ -50,6 +55,7 @@ func (c *SimClock) NewTicker(d time.Duration) *time.Ticker {
 }
 
 // For returns a view of the clock whose tickers are attributed to owner.
+//go:norace
 func (c *SimClock) For(owner unsafe.Pointer, size uintptr) *OwnedClock {
 	return &OwnedClock{c, owner, size}
 }
@@ -60,6 +66,7 @@ type OwnedClock struct {
 	size  uintptr
 }
 
+//go:norace
 func (o *OwnedClock) NewTicker(d time.Duration) *time.Ticker {
 	t := o.SimClock.NewTicker(d)
 	tk := o.SimClock.Tickers[len(o.SimClock.Tickers)-1]
@@ -70,6 +77,7 @@ func (o *OwnedClock) NewTicker(d time.Duration) *time.Ticker {
 // CanTick: Go's select picks pseudo-randomly (and unseedably) among ready
 // cases, so a tick is delivered only when the channel is empty and the
 // consuming goroutine is idle in its select (not parked inside the simulator).
+//go:norace
 func (c *SimClock) CanTick(tk *SimTicker) bool {
 	if len(tk.C) != 0 {
 		return false
@@ -80,7 +88,22 @@ func (c *SimClock) CanTick(tk *SimTicker) bool {
 	return true
 }
 
+// TickAny delivers a tick on the first ticker that can take one; false if none can.
+//go:norace
+func (c *SimClock) TickAny(fire bool) bool {
+	for _, tk := range c.Tickers {
+		if c.CanTick(tk) {
+			if fire {
+				c.Tick(tk)
+			}
+			return true
+		}
+	}
+	return false
+}
+
 // Tick advances time by the ticker's period and delivers one tick.
+//go:norace
 func (c *SimClock) Tick(tk *SimTicker) {
 	c.Advance(tk.D)
 	tk.Sent++
